@@ -119,7 +119,7 @@ func c07Floats() []float64 {
 	add(math.Ldexp(1, 52) + 1)
 	add(math.Ldexp(1, 53) - 1)
 	add(math.Ldexp(1, 53) + 2)
-	add(math.Nextafter(math.Ldexp(1, 63), 0))            // 2^63(1-ε/2): largest float below 2^63
+	add(math.Nextafter(math.Ldexp(1, 63), 0))           // 2^63(1-ε/2): largest float below 2^63
 	add(math.Nextafter(math.Ldexp(1, 63), math.Inf(1))) // 2^63(1+ε)
 	add(math.MaxFloat64)
 	add(math.Nextafter(math.MaxFloat64, 0))
